@@ -1,14 +1,14 @@
 SPECIFICATION Spec
 CONSTANTS KnownDevs = {}
 INVARIANTS
+  InEnvelope
+  Up4Envelope
   C15_CounterCellsExclusive
   C15_MeterCellsExclusive
   C15_NotFreeWhileInUse
   C15_NoIdTwiceInPool
   C15_PeerIdsInUseStayAllocated
   C15_FailedWriteMeansRejection
-  InEnvelope
-  Up4Envelope
 POSTCONDITION TraceAccepted
 ALIAS AliasC15
 CHECK_DEADLOCK FALSE
